@@ -10,6 +10,7 @@ import (
 )
 
 type patEl struct {
+	all    bool // wildcard without bounds
 	wild   bool
 	term   string
 	lo, hi string
@@ -59,6 +60,9 @@ func (e *Env) tryLoc(x Expr) *locPat {
 			panic(genErr("[*] on non-slice %s", exprString(n.X)))
 		}
 		off := app("s-off", v.term)
+		if n.All {
+			return &locPat{base: app("s-arr", v.term), elems: []patEl{{wild: true, all: true}}, typ: u.Elem()}
+		}
 		return &locPat{base: app("s-arr", v.term), elems: []patEl{{wild: true, lo: off, hi: app("+", off, app("s-len", v.term))}}, typ: u.Elem()}
 	case *EIndex:
 		v := e.eval(n.X)
@@ -136,7 +140,9 @@ func matchRef(r string, pat *locPat, extra []int) string {
 	for j := len(els) - 1; j >= 0; j-- {
 		conds = append(conds, "((_ is pcons) "+tail+")")
 		hd := app("phd", tail)
-		if els[j].wild {
+		if els[j].wild && els[j].all {
+			// any index
+		} else if els[j].wild {
 			conds = append(conds, app("<=", els[j].lo, hd), app("<", hd, els[j].hi))
 		} else {
 			conds = append(conds, eq(hd, els[j].term))
@@ -200,19 +206,14 @@ func (g *FnGen) coveredTyped(a string, pats []*locPat, t types.Type) string {
 	return or(ds...)
 }
 
-func (g *FnGen) frameAxiomPats(pats []*locPat, sort, old, nw, nextPre string, stable ...string) string {
+func (g *FnGen) frameAxiomPats(pats []*locPat, sort, old, nw, nextPre string, except []string) string {
 	cov := g.coveredPrim("r", pats, sort)
-	pre := app("<", app("rid", "r"), nextPre)
-	if len(stable) > 0 {
-		// cells of address-taken locals that the loop does not assign keep their value as well
-		ds := []string{pre}
-		for _, st := range stable {
-			ds = append(ds, eq(app("rid", "r"), app("rid", st)))
-		}
-		pre = or(ds...)
+	conds := []string{app("<", app("rid", "r"), nextPre), not(cov)}
+	for _, ex := range except {
+		conds = append(conds, not(eq(app("rid", "r"), app("rid", ex))))
 	}
-	return fmt.Sprintf("(forall ((r Ref)) (! (=> (and %s (not %s)) (= (select %s r) (select %s r))) :pattern ((select %s r))))",
-		pre, cov, nw, old, nw)
+	return fmt.Sprintf("(forall ((r Ref)) (! (=> %s (= (select %s r) (select %s r))) :pattern ((select %s r))))",
+		and(conds...), nw, old, nw)
 }
 
 func (g *FnGen) evalPats(env *Env, mods []Clause) []*locPat {
@@ -221,10 +222,6 @@ func (g *FnGen) evalPats(env *Env, mods []Clause) []*locPat {
 		pats = append(pats, g.expandGhost(env.evalLoc(m.E))...)
 	}
 	return pats
-}
-
-func (g *FnGen) frameAxiom(env *Env, mods []Clause, sort, old, nw, nextPre string, stable ...string) string {
-	return g.frameAxiomPats(g.evalPats(env, mods), sort, old, nw, nextPre, stable...)
 }
 
 // fnPats: the function's own modifies clause evaluated in the entry state.
@@ -259,12 +256,13 @@ func (g *FnGen) checkFrameCond(s *State, a, guard string, t types.Type, what str
 	}
 	g.addObl(s, "frame", fmt.Sprintf("frame[%s#%d]", what, g.frameN), "modifies "+patsString(g.fnPats()), g.posOf(), implies(guard, ok))
 	for _, li := range g.enclosingLoops() {
-		if li.pats == nil {
-			continue
+		local := "false"
+		for _, tr := range li.touched {
+			local = or(local, eq(app("rid", a), app("rid", tr)))
 		}
-		okl := or(app(">=", app("rid", a), li.nextPre), g.coveredTyped(a, li.pats, t))
+		okl := or(app(">=", app("rid", a), li.nextPre), local, g.coveredTyped(a, li.pats, t))
 		if what == "append" {
-			okl = or(app(">=", app("rid", a), li.nextPre), g.coveredArr(a, li.pats, t))
+			okl = or(app(">=", app("rid", a), li.nextPre), local, g.coveredArr(a, li.pats, t))
 		}
 		g.addObl(s, "frame", fmt.Sprintf("frame[%s#%d.loop%d]", what, g.frameN, li.ordinal), "loop modifies "+patsString(li.pats), g.posOf(), implies(guard, okl))
 	}
@@ -316,7 +314,7 @@ func (g *FnGen) checkCallFrame(s *State, fc *FuncContract, env *Env, site string
 		return
 	}
 	cpats := g.evalPats(env, fc.Modifies)
-	check := func(ours []*locPat, nextPre, suffix string) {
+	check := func(ours []*locPat, nextPre, suffix string, touched []string) {
 		ourGhosts := map[string]bool{}
 		for _, p := range ours {
 			if p.ghost != "" {
@@ -334,17 +332,19 @@ func (g *FnGen) checkCallFrame(s *State, fc *FuncContract, env *Env, site string
 			g.cellSorts(cp.typ, sorts)
 			var cs []string
 			for k := range sorts {
-				cs = append(cs, implies(g.coveredPrim("r", []*locPat{cp}, k), or(app(">=", app("rid", "r"), nextPre), g.coveredPrim("r", ours, k))))
+				local := "false"
+				for _, tr := range touched {
+					local = or(local, eq(app("rid", "r"), app("rid", tr)))
+				}
+				cs = append(cs, implies(g.coveredPrim("r", []*locPat{cp}, k), or(app(">=", app("rid", "r"), nextPre), local, g.coveredPrim("r", ours, k))))
 			}
 			g.addObl(s, "frame", fmt.Sprintf("frame[call@%s.%d%s]", site, i+1, suffix), "callee modifies "+cp.src, g.posOf(),
 				"(forall ((r Ref)) "+and(cs...)+")")
 		}
 	}
-	check(g.fnPats(), "next!0", "")
+	check(g.fnPats(), "next!0", "", nil)
 	for _, li := range g.enclosingLoops() {
-		if li.pats != nil {
-			check(li.pats, li.nextPre, fmt.Sprintf(".loop%d", li.ordinal))
-		}
+		check(li.pats, li.nextPre, fmt.Sprintf(".loop%d", li.ordinal), li.touched)
 	}
 }
 
